@@ -122,6 +122,15 @@ def main():
     except Exception as e:
         OUT["probe"]["wl_error"] = repr(e)
 
+    MAX_DRIVER_EVENTS = int(os.environ.get("C13_MAX_DRIVER_EVENTS", "200000"))
+
+    def ent_event(ent, ev):
+        """record one driver event of the current entry point (capped: a spinning driver must not eat the memory)"""
+        if len(ent["events"]) < MAX_DRIVER_EVENTS:
+            ent["events"].append(ev)
+        else:
+            ent["truncated"] = True
+
     CUR = {"frame": None, "entry": None, "clo": None, "scope": None, "taint": None}
     KEEP = []          # keep frames alive so that id() stays unique
     FRAME_REC = {}     # id(frame) -> record
@@ -254,7 +263,7 @@ def main():
     def stack_add(self, element):
         ent = CUR["entry"]
         if ent is not None and not getattr(element, "is_meta_frame", False):
-            ent["events"].append(["push", [int(element.caller_id), int(element.call_stmt_id), int(element.method_id)]])
+            ent_event(ent, ["push", [int(element.caller_id), int(element.call_stmt_id), int(element.method_id)]])
             ent["frames"] += 1
         if P2["on"]:
             P2["frames_pushed"] += 1
@@ -266,9 +275,9 @@ def main():
         ent = CUR["entry"]
         if ent is not None and el is not None and not getattr(el, "is_meta_frame", False):
             if ent["_initfail"] is el:
-                ent["events"].append(["initFail", int(el.method_id)])
+                ent_event(ent, ["initFail", int(el.method_id)])
             else:
-                ent["events"].append(["done", int(el.method_id)])
+                ent_event(ent, ["done", int(el.method_id)])
             ent["_initfail"] = None
         return el
 
@@ -284,7 +293,7 @@ def main():
                 ent["_initfail"] = frame
             else:
                 path = [[int(c.caller_id), int(c.call_stmt_id), int(c.callee_id)] for c in frame.call_path.path]
-                ent["events"].append(["init", int(frame.method_id), path])
+                ent_event(ent, ["init", int(frame.method_id), path])
                 ent["max_path"] = max(ent["max_path"], len(path))
         return r
 
@@ -300,8 +309,8 @@ def main():
             ent["_inv"].append([int(stmt_id), raw, int(self.frame.method_id)])
             ent["requests"] += 1
             if res is not None and getattr(res, "interruption_flag", False):
-                ent["events"].append(["intr", int(self.frame.method_id), int(stmt_id),
-                                      [int(x) for x in res.interruption_data.callee_ids]])
+                ent_event(ent, ["intr", int(self.frame.method_id), int(stmt_id),
+                                [int(x) for x in res.interruption_data.callee_ids]])
                 ent["interruptions"] += 1
         return res
 
